@@ -318,9 +318,18 @@ PROPS["C16"]["obligations"] += [o for o in _c06_wire if o["name"].endswith(("n2_
     K("c16_cipher_list_decode_total_12_of_14", "12 arbitrary bytes, length field 14 (two entries)", role="c16_cipher_list_total"),
     K("c16_cipher_list_decode_total_7_of_10", "truncated: 7 bytes present, length field 10: the parse error, no panic", role="c16_cipher_list_total"),
 ]
+_sig = [K("c08_signature_read_total_12_at_2", "signature read of InitMsg::read_from (extracted slice) on arbitrary bytes, any length byte 0..=255, 12 bytes with the "
+          "signature part starting at 2: the signature of that length or the parse error, no panic", role="c08_signature_read"),
+        K("c08_signature_read_total_16_at_0", "same, 16 bytes, from 0", role="c08_signature_read"),
+        K("c08_signature_read_total_5_at_5", "same, nothing left to read", role="c08_signature_read")]
+PROPS["C16"]["obligations"] += _sig[:2]
+PROPS["C08"]["obligations"] += _sig
+PROPS["C08"]["functions"] += ["InitMsg::read_from (signature read, extracted slice)"]
+PROPS["C08"]["files"] = PROPS["C08"]["files"] + ["src/crypto/init.rs"]
+PROPS["C08"]["assumptions"] = PROPS["C08"]["assumptions"] + [PROPS["C06"]["assumptions"][-1]]
 PROPS["C16"]["files"] += ["src/crypto/init.rs"]
-PROPS["C16"]["functions"] += ["InitMsg::write_to (cipher-list arm, extracted)", "InitMsg::read_from (cipher-list arm, extracted)"]
-PROPS["C16"]["bounds"] += "; handshake messages: only the cipher-list part (0..=3 entries, any order, any f32 bits; arbitrary bytes for totality)"
+PROPS["C16"]["functions"] += ["InitMsg::write_to (cipher-list arm, extracted)", "InitMsg::read_from (cipher-list arm and signature read, extracted)"]
+PROPS["C16"]["bounds"] += "; handshake messages: only the cipher-list part (0..=3 entries, any order, any f32 bits; arbitrary bytes for totality) and the signature read (any length byte)"
 PROPS["C16"]["assumptions"] = PROPS["C16"]["assumptions"] + [PROPS["C06"]["assumptions"][-1]]
 
 EXTRACT_ASSUME = STD_ASSUME + [
